@@ -148,5 +148,16 @@ def check(tier="quick", seed=0):
         allowed = set([last_pre] if last_pre is not None else []) | set(x for x in cand[k]["patch"] if last_pre is None or x >= last_pre or True)
         got = M.magic2int(M.magics[name])
         ob("release-name/%s" % name, got in allowed, key=name, detail={"xdis": got, "registry": sorted(allowed)})
+        # a name with a patch level: exactly the magic of the registry's latest in-series row tagged with a patch level
+        # <= that patch (e.g. 3.5.2 and later write 3351, 3.5.0/3.5.1 the last pre-release magic 3350)
+        if mm.group(3) is not None and last_pre is not None:
+            z = int(mm.group(3))
+            tagged = sorted((int(r["tag"][1:]), r["magic"]) for r in registry()["rows"]
+                            if (r["major"], r["minor"]) == k and re.match(r"^\.\d+$", r["tag"]))
+            exact = last_pre
+            for pz, mg in tagged:
+                if pz <= z and mg >= exact:
+                    exact = mg
+            ob("release-name-exact/%s" % name, got == exact, key="exact:" + name, detail={"xdis": got, "registry": exact})
     return {"name": "ground.c08", "kind": "ground", "obligations": obl, "violations": vio, "evaluations": len(obl),
             "assumptions": ["CPython's magic registry = comment table of importlib/_bootstrap_external.py (3.13.0) + MAGIC_NUMBER of the 9 installed interpreters"]}
